@@ -146,7 +146,9 @@ def s_xmd(draw):
         st.sampled_from([0, 1, b - 1, b, b + 1, 2 * b - 1, 2 * b, 2 * b + 1, 3 * b, 254 * b, 255 * b - 1,
                          255 * b, 128, 256]),
         st.integers(0, 255 * b), st.integers(0, 6 * b)))
-    msg = draw(st.one_of(sized_binary((0, 1, bs - 1, bs, bs + 1, 2 * bs), 300),
+    from vf.strategies import huge_msg
+    msg = draw(st.one_of(huge_msg() if draw(st.integers(0, 29)) == 0 else st.binary(max_size=8),
+                         sized_binary((0, 1, bs - 1, bs, bs + 1, 2 * bs), 300),
                          st.binary(min_size=1024, max_size=4096) if draw(st.integers(0, 19)) == 0
                          else st.binary(max_size=64)))
     return {"msg": hx(msg), "dst": draw(s_dst()), "n": n, "hash": name, "ctor": draw(st.sampled_from([0, 0, 1, 2]))}
